@@ -254,8 +254,10 @@ def matchNext (keytype : Bytes) (pub : Bool) (data : Bytes) : Found :=
   if data.head? = some 0x30 then
     match Der.decodePartial (data.length + 1) data with
     | .ok (v, n) => .der v n
-    | .error .decode => text
-    | .error e => .derOther e
+    | .error .fuel => .derOther .fuel
+    -- every content error is an ASN1DecodeError since repair 1ed480b (the type constructors' own exceptions are
+    -- converted by der_decode_partial): the data is then read as text
+    | .error _ => text
   else text
 
 /-- the `while data:` loops of `_decode_private_list` / `_decode_public_list` at container level:
